@@ -193,6 +193,16 @@ Q_SHAPES = {
             [(2.0, 4.0), (0.0, 0.0)],
         ],
     ),
+    # small squares that live inside the bulge of a curved segment (beyond the chord end points)
+    "c6": ("circle", 1.0, (0.0, 0.0), 6),
+    "bulgesq": ("verts", [(-0.25, 0.5), (0.25, 0.5), (0.25, 1.0), (-0.25, 1.0)]),
+    "tinysq": ("verts", [(-0.025, 0.895), (0.025, 0.895), (0.025, 0.945), (-0.025, 0.945)]),
+    "outsq": ("verts", [(1.2, 1.2), (1.6, 1.2), (1.6, 1.6), (1.2, 1.6)]),
+    # curved boundaries with INTEGER control points (exact Newton iterations inside the library)
+    "iarch": ("ctrl", [[(0, 0), (3, 5), (6, 0)], [(6, 0), (0, 0)]]),
+    "ibox": ("verts", [(1, 1), (7, 2), (7, -3), (1, -3)]),
+    "ikite": ("verts", [(3, -1), (5, 2), (3, 4), (1, 2)]),
+    "ilens": ("ctrl", [[(-2, 0), (0, -3), (2, 0)], [(2, 0), (0, 3), (-2, 0)]]),
     # mixed degrees in generic position (nothing on an axis, nothing symmetric about the origin)
     "mixg": (
         "ctrl",
